@@ -345,72 +345,7 @@ func r62(c *fw.Ctx) {
 			return true
 		})
 	}
-	// the restore is unconditional: every argument gets every saved field back on every call. A guard is
-	// tolerated only when it is a disjunction of `arg.f != backup.f` tests naming every field restored under
-	// it (then a skipped restore would have been a no-op)
-	if fd, _ := needDecl(c, rule, "restoreArgs"); fd != nil {
-		var stack []ast.Node
-		ok := true
-		why := ""
-		ast.Inspect(fd.Body, func(n ast.Node) bool {
-			if n == nil {
-				stack = stack[:len(stack)-1]
-				return true
-			}
-			stack = append(stack, n)
-			as, isAs := n.(*ast.AssignStmt)
-			if !isAs {
-				return true
-			}
-			fields := map[string]bool{}
-			for _, l := range as.Lhs {
-				if sel, isSel := unparen(l).(*ast.SelectorExpr); isSel && isElemPtr(info.TypeOf(sel.X)) {
-					fields[sel.Sel.Name] = true
-				}
-			}
-			if len(fields) == 0 {
-				return true
-			}
-			for i := len(stack) - 2; i >= 0; i-- {
-				switch g := stack[i].(type) {
-				case *ast.IfStmt:
-					tested := map[string]bool{}
-					pure := true
-					var split func(e ast.Expr)
-					split = func(e ast.Expr) {
-						e = unparen(e)
-						if be, isBin := e.(*ast.BinaryExpr); isBin {
-							if be.Op == token.LOR {
-								split(be.X)
-								split(be.Y)
-								return
-							}
-							if be.Op == token.NEQ {
-								if sel, isSel := unparen(be.X).(*ast.SelectorExpr); isSel && isElemPtr(info.TypeOf(sel.X)) {
-									tested[sel.Sel.Name] = true
-									return
-								}
-							}
-						}
-						pure = false
-					}
-					split(g.Cond)
-					inThen := g.Body.Pos() <= as.Pos() && as.End() <= g.Body.End()
-					for f := range fields {
-						if !pure || !tested[f] || !inThen {
-							ok = false
-							why = sprintf("the restore of %s is guarded by `%s`", f, exprString(g.Cond))
-						}
-					}
-				case *ast.SwitchStmt, *ast.TypeSwitchStmt, *ast.SelectStmt:
-					ok = false
-					why = "the restore sits inside a switch"
-				}
-			}
-			return true
-		})
-		c.Check(ok, rule, "restore/unconditional", fd.Pos(), "restoreArgs must give every argument its saved fields back unconditionally: %s — a conversion that rewrites a field the guard does not test survives into the next candidate", why)
-	}
+	restoreUnconditional(c, rule)
 	c.Check(len(saved) > 0 && join(sortedKeys(saved)) == join(sortedKeys(restored)), rule, "backup/saved-equals-restored", token.NoPos,
 		"backupArgs saves {%s}, restoreArgs restores {%s}", join(sortedKeys(saved)), join(sortedKeys(restored)))
 	// the Elem struct's field order
@@ -725,4 +660,74 @@ func r64slots(c *fw.Ctx, p *packages.Package, fd *ast.FuncDecl, name string) {
 		return true
 	})
 	c.Check(sized, rule, name+"/one-slot-per-item", fd.Pos(), "the family must have exactly one slot per item")
+}
+
+func restoreUnconditional(c *fw.Ctx, rule string) {
+	// the restore is unconditional: every argument gets every saved field back on every call. A guard is
+	// tolerated only when it is a disjunction of `arg.f != backup.f` tests naming every field restored under
+	// it (then a skipped restore would have been a no-op)
+	if fd, p := needDecl(c, rule, "restoreArgs"); fd != nil {
+		info := p.TypesInfo
+		var stack []ast.Node
+		ok := true
+		why := ""
+		ast.Inspect(fd.Body, func(n ast.Node) bool {
+			if n == nil {
+				stack = stack[:len(stack)-1]
+				return true
+			}
+			stack = append(stack, n)
+			as, isAs := n.(*ast.AssignStmt)
+			if !isAs {
+				return true
+			}
+			fields := map[string]bool{}
+			for _, l := range as.Lhs {
+				if sel, isSel := unparen(l).(*ast.SelectorExpr); isSel && isElemPtr(info.TypeOf(sel.X)) {
+					fields[sel.Sel.Name] = true
+				}
+			}
+			if len(fields) == 0 {
+				return true
+			}
+			for i := len(stack) - 2; i >= 0; i-- {
+				switch g := stack[i].(type) {
+				case *ast.IfStmt:
+					tested := map[string]bool{}
+					pure := true
+					var split func(e ast.Expr)
+					split = func(e ast.Expr) {
+						e = unparen(e)
+						if be, isBin := e.(*ast.BinaryExpr); isBin {
+							if be.Op == token.LOR {
+								split(be.X)
+								split(be.Y)
+								return
+							}
+							if be.Op == token.NEQ {
+								if sel, isSel := unparen(be.X).(*ast.SelectorExpr); isSel && isElemPtr(info.TypeOf(sel.X)) {
+									tested[sel.Sel.Name] = true
+									return
+								}
+							}
+						}
+						pure = false
+					}
+					split(g.Cond)
+					inThen := g.Body.Pos() <= as.Pos() && as.End() <= g.Body.End()
+					for f := range fields {
+						if !pure || !tested[f] || !inThen {
+							ok = false
+							why = sprintf("the restore of %s is guarded by `%s`", f, exprString(g.Cond))
+						}
+					}
+				case *ast.SwitchStmt, *ast.TypeSwitchStmt, *ast.SelectStmt:
+					ok = false
+					why = "the restore sits inside a switch"
+				}
+			}
+			return true
+		})
+		c.Check(ok, rule, "restore/unconditional", fd.Pos(), "restoreArgs must give every argument its saved fields back unconditionally: %s — a conversion that rewrites a field the guard does not test survives into the next candidate", why)
+	}
 }
